@@ -322,6 +322,9 @@ SRW_CORPUS = [
     [["lock_shared"] + W8 + ["unlock_shared"], ["lock"] + W8 + ["unlock"], ["lock_shared"] + W8 + ["unlock_shared"]],
     [["lock_shared"] + W8 + ["upgrade"] + W8 + ["unlock"], ["lock_shared"] + W8 + ["upgrade"] + W8 + ["unlock"], ["lock"] + W8 + ["unlock"]],
     [["lock"] + W8 + ["downgrade"] + W8 + ["unlock_shared"], ["lock_shared"] + W8 + ["unlock_shared"], ["lock"] + W8 + ["unlock"]],
+    # a writer downgrades while readers sleep behind it and no writer is pending: the downgrade itself must wake them (nothing else will)
+    [["lock"] + W8 + W8 + ["downgrade"] + W8 + W8 + ["unlock_shared"], ["lock_shared"] + W8 + ["unlock_shared"], ["lock_shared"] + W8 + ["unlock_shared"]],
+    [["lock"] + W8 + W8 + ["downgrade"] + W8 + ["unlock_shared"], ["work", "lock_shared", "unlock_shared", "lock_shared", "unlock_shared"]],
     [["lock_shared"] + W8 + ["unlock_shared"] + W8 + ["lock", "unlock"], ["lock"] + W8 + ["unlock"] + W8 + ["lock_shared", "unlock_shared"],
      ["try_lock_shared"] + W8 + ["upgrade"] + W8 + ["downgrade", "unlock_shared"], ["lock"] + W8 + ["unlock"]],
 ]
